@@ -51,3 +51,48 @@ theorem missing_extract_releases (t : Nat) :
 theorem net_nil (t : Nat) : net t [] = 0 := rfl
 
 end Mink.C05
+
+namespace Mink.C05
+open Mink
+
+/-- one slot, any pairing, success or failure, fresh caller variable: no count event -/
+theorem slot_events_nil (stub skel : BLang) (ok : Bool) (s : ObjSlot) :
+    (runProxy none (skelOps skel s)).2 ++ (runProxy none (stubOps ok none stub s)).2 = [] := by
+  obtain ⟨d, t⟩ := s
+  cases stub <;> cases skel <;> cases d <;> cases ok <;> cases t <;> rfl
+
+/-- **C05 (model level, all 9 pairings, any number of object slots, any pattern of null /
+    non-null / aliased objects, success and failure)**: the generated marshalling code issues
+    no retain and no release at all; hence the count of every object is what caller and
+    implementation themselves make it -/
+theorem call_events_nil (stub skel : BLang) (ok : Bool) (slots : List ObjSlot) :
+    callEvents stub skel ok slots = [] := by
+  unfold callEvents
+  induction slots with
+  | nil => rfl
+  | cons s ss ih =>
+    rw [List.flatMap_cons, ih, List.append_nil]
+    exact slot_events_nil stub skel ok s
+
+theorem call_neutral (stub skel : BLang) (ok : Bool) (slots : List ObjSlot) (t : Nat) :
+    net t (callEvents stub skel ok slots) = 0 := by
+  rw [call_events_nil]; rfl
+
+/-- outputs: on success the caller's variable holds exactly the produced object (which the
+    skeleton gave up: ownership moved, once); on failure it holds what it held before — no
+    output object is adopted -/
+theorem output_adopted_iff_ok (stub : BLang) (held : Option Nat) (t : Option Nat) :
+    callerHolds true held stub ⟨.out, t⟩ = t ∧ callerHolds false held stub ⟨.out, t⟩ = held := by
+  cases stub <;> cases held <;> cases t <;> simp [callerHolds, stubOps, cppStubOut, runProxy, stepProxy]
+
+/-- a re-used caller variable: the only event of the call is the release of what the variable
+    held before, and only on success (C++ `consume`) -/
+theorem reused_variable_releases_old (skel : BLang) (old : Nat) (t : Option Nat) :
+    (runProxy none (stubOps true (some old) .cpp ⟨.out, t⟩)).2 = [.release old] ∧
+    (runProxy none (stubOps false (some old) .cpp ⟨.out, t⟩)).2 = [] ∧
+    (runProxy none (skelOps skel ⟨.out, t⟩)).2 = [] := by
+  cases skel <;> cases t <;> simp [stubOps, skelOps, cppStubOut, cppSkelOut, runProxy, stepProxy, releaseOf]
+
+example : callEvents .cpp .cpp true [⟨.inp, some 1⟩, ⟨.inp, some 1⟩, ⟨.inp, none⟩, ⟨.out, some 2⟩, ⟨.out, none⟩] = [] := by decide
+
+end Mink.C05
